@@ -211,6 +211,10 @@ def check(prog, rep):
     from .c13 import duration_dispatch
 
     duration_dispatch(prog, rep)
+    # gaps are differences of timestamp + duration: instant arithmetic only because Event keeps timestamps in UTC
+    from .c13 import normalisation
+
+    normalisation(prog, rep)
     sweep_rules(prog, rep)
     # the transform's own copies (deepcopy of events) separate its output from its input only if Event keeps the default copy protocol
     from ..rules_own import copy_protocol
